@@ -299,7 +299,11 @@ unsafe impl Hal for LabHal {
                 h.fault("dma_alloc-zero-pages", "dma_alloc called with 0 pages".into());
             }
             let (vaddr, dev_vaddr) = if h.use_tracer_pages { crate::tracer::alloc_double_mapped(pages) } else { let v = alloc_pages(pages); (v, v) };
-            let paddr = h.next_dma_paddr;
+            // Consecutive allocations land in different 4 GiB windows of device address space, so
+            // that the upper halves of the addresses of one queue's regions differ (a transport
+            // mixing up the halves of two addresses is then visible).
+            let window = (h.dma.len() as u64 % 7) << 32;
+            let paddr = h.next_dma_paddr + window;
             // Leave an unmapped guard gap between allocations in device address space.
             h.next_dma_paddr += ((pages.max(1) + 1) * PAGE_SIZE) as u64;
             h.seq += 1;
